@@ -101,8 +101,11 @@ def _rule_delegation_rest(ctx):
     for p in ev.paths:
         v = p.value
         ii = ('call', ('attr', ('attr', ('sub', ('attr', SELF, 'axes'), P_('axis')), 'values'), 'argsort'), (), (('kind', P_('kind')),))
-        ok = p.kind == 'return' and v[0] == 'call' and v[1] == ('attr', SELF, 'take_axis') and v[2] == (ii,) and T.kw(v, 'axis') == P_('axis') \
-            and T.kw(v, 'indexing') == const('position')
+        # (arguments read by parameter: positional and keyword spellings are the same call)
+        ok = p.kind == 'return' and v[0] == 'call' and v[1] == ('attr', SELF, 'take_axis')
+        if ok:
+            b_ = bind_call_args(v, ctx.fn(DS + 'take_axis'), method=True)
+            ok = b_.get('indices') == ii and b_.get('axis') == P_('axis') and b_.get('indexing') == const('position')
         if not ok:
             ctx.violated('R1' if 'position' in T.show(v) else 'R3', fi, 'return ' + T.show(v)[:140],
                          "Dataset.sort_axis must take the argsort of the labels of that axis with take_axis(ii, axis=axis, indexing='position')", node=p.node)
